@@ -1,9 +1,9 @@
 CONSTANTS
-  MaxAlign = 16
-  Sizes = {0, 1, 2, 3, 8, 24, 64}
-  Aligns = {1, 2, 4, 8, 16}
+  MaxAlign = 8
+  Sizes = {0, 1, 3, 8, 24}
+  Aligns = {1, 2, 4, 8}
   Caps = {0, 4, 16}
-  MaxAllocs = 4
+  MaxAllocs = 3
   Repaired = TRUE
 SPECIFICATION Spec
 VIEW View
